@@ -33,7 +33,7 @@ def cases(draw, tier):
     return dict(nl=nl, lanes=lanes, waves=waves, dpool=draw(W.DELAY_POOL), caps=draw(W.CAPS), f64=draw(st.booleans()),
                 strip_forks=draw(st.booleans()), cuda=draw(st.sampled_from([False, False, True])),
                 ctime=draw(st.one_of(st.none(), st.integers(-8, 700), st.tuples(st.integers(0, 40), st.integers(-1, 1)), st.sampled_from(['far-', 'far+']))),
-                actrl=[list(x) for x in actrl] if actrl else None, props=draw(st.integers(1, 2)),
+                actrl=[list(x) for x in actrl] if actrl else None, props=draw(st.integers(1, 2)), partial=draw(st.sampled_from([0, 0, 1, 2, 3])),
                 owave=draw(st.one_of(st.none(), st.lists(st.tuples(st.integers(0, 1), st.lists(st.integers(0, 700), max_size=6), st.booleans()),
                                                          min_size=1, max_size=4))))
 
@@ -97,7 +97,7 @@ def prop(case):
     n_clear = n_set = 0
     skipped_nonmonotone = 0
 
-    def summarise(sim, tag=''):
+    def summarise(sim, tag='', T=T):
         nonlocal separates, n_clear, n_set, skipped_nonmonotone
         for row, what in rows:
             for lane in range(lanes):
@@ -193,7 +193,17 @@ def prop(case):
                 if any(ts[i] >= ts[i + 1] for i in range(len(ts) - 1)): injected_nonmono = True
         capture(sim3)
         summarise(sim3, 'waveform written into the output region: ')
+    # (e) propagation restricted to the first k lanes, then a capture at another time: capture covers all lanes (their waveforms are still there)
+    partial = False
+    if case.get('partial') and lanes > 1 and not isinstance(ct, str):
+        k = 1 + case['partial'] % (lanes - 1)
+        sim.c_prop(sims=k)
+        T2 = 2.5 if T is None else T + 1.375
+        sim.c_to_s(time=T2)
+        summarise(sim, f'after c_prop(sims={k}) and a capture at {T2}: ', T2)
+        partial = True
     labels = []
+    if partial: labels.append('partial_propagation_then_capture')
     if injected_nonmono: labels.append('written_waveform_not_increasing')
     if separates: labels.append('T_separates_transitions')
     if sim_clear and sim_set: labels.append('mixed_overflow_flags')
